@@ -118,9 +118,15 @@ func (p *c02) Init(tier string, seed int64) {
 			p.hand = append(p.hand, fmt.Sprintf(form, args...))
 		}
 	}
-	for _, m := range []string{"ValueMethod", "PtrMethod", "Add", "Concat", "Variadic", "Join", "Fmt", "Two", "Nothing", "TakesPtr", "TakesIface", "TakesFloat", "TakesSlice", "TakesUint", "TakesInt8", "TakesUint8", "NilFunc", "Fn", "Name"} {
+	for _, m := range []string{"ValueMethod", "PtrMethod", "Add", "Concat", "Variadic", "Join", "Fmt", "Two", "Nothing", "TakesPtr", "TakesIface", "TakesFloat", "TakesSlice", "TakesUint", "TakesInt8", "TakesUint8", "NilFunc", "Fn", "Name", "TakesArray", "TakesArrayPtr", "TakesVals", "TakesBytes", "TakesValsPtr"} {
 		for _, v := range append(c02Vars(), "null", "nan", "inf", "big") {
 			p.hand = append(p.hand, fmt.Sprintf("{{ obj.%s(%s) }}{{ pt.%s(%s, %s) }}{{ obj.%s('x', 1, %s) }}", m, v, m, v, v, m, v))
+		}
+	}
+	// lists of every small length (as literals and from the context) for parameters that are slices and arrays
+	for _, m := range []string{"TakesSlice", "TakesArray", "TakesArrayPtr", "TakesVals", "TakesBytes", "TakesValsPtr", "TakesIface", "Variadic", "Join"} {
+		for _, a := range []string{"[]", "[1]", "[1, 2]", "[1, 2, 3]", "['a']", "[null]", "[[1]]", "earr", "arr", "parr", "vals", "s", "es", "{}", "{'a': 1}", "1..2", "1..4", "s|split('')"} {
+			p.hand = append(p.hand, fmt.Sprintf("{{ obj.%s(%s) }}|{{ pt.%s(%s) }}|{{ attribute(obj, '%s', [%s]) }}", m, a, m, a, m, a))
 		}
 	}
 	p.handN = len(p.hand)
